@@ -162,8 +162,20 @@ pub fn resolve_encoding<'encoding>(
                 }
             }
             
-            report.message(
-                diagn::Message::fuse_topmost(msgs));
+            if msgs.len() > 0
+            {
+                report.message(
+                    diagn::Message::fuse_topmost(msgs));
+            }
+            else
+            {
+                // No candidate failed a constraint: they are all
+                // still unresolved (e.g. they depend on values that
+                // never became known within the iteration budget)
+                report.error_span(
+                    "failed to resolve instruction",
+                    instr_span);
+            }
         }
 
         return Ok(None);
